@@ -328,6 +328,14 @@ type Config struct {
 	PCTDepth       int // PolPCT: number of priority change points
 	PCTHorizon     int // PolPCT: change points are drawn in [1,PCTHorizon]
 	MaxSteps       int
+	// A stalled task ("slow node"): with probability StallPermille one task of the run stops at
+	// its k-th own yield (k drawn in [1,StallHorizon]) and is left out of scheduling until one or
+	// two whole requests of other tasks have started and completed meanwhile (two yields at
+	// StallSite, the request boundary, by the same task); it then runs next. Needs three tasks or more.
+	StallPermille  int
+	StallHorizon   int
+	StallSite      int
+	StallCountSite int // when >0, only the victim's yields at this site count towards k (e.g. the expression-level yields of an instrumented build)
 	Sched          *tape.Stream
 	Time           *tape.Stream
 	// WakeCmd runs on the driver goroutine just before task is released; it may
@@ -358,6 +366,8 @@ type Result struct {
 	BlockedStates    map[string]int // runtime state of the goroutines that were classed blocked outside the scheduler
 	Deadlock         bool
 	Capped           bool
+	Stalls           int // stall faults that fired (the victim reached its stall point while others were still running)
+	StallThaws       int // of which ended because the awaited progress of other tasks happened
 }
 
 const (
@@ -429,6 +439,19 @@ func Run(cfg Config, bodies []func(t *Task)) *Result {
 		}
 	}
 	lowPrio := 0
+	stallTask, stallAt, stallNeed := -1, 0, 0
+	if cfg.StallPermille > 0 && n >= 3 && cfg.Sched.Chance(cfg.StallPermille) {
+		h := cfg.StallHorizon
+		if h < 2 {
+			h = 2
+		}
+		if cfg.Sched.Intn(2) == 0 && h > 40 {
+			h = 40 // half of the stalls come early: the victim stops inside the set-up of its first request, when every other task is about to start one as well
+		}
+		stallTask, stallAt, stallNeed = cfg.Sched.Intn(n), 1+cfg.Sched.Intn(h), 1+cfg.Sched.Intn(2)
+	}
+	stalled, stallSeen, stallSteps, forceNext, ownSteps := false, 0, 0, -1, 0
+	stallBoundaries := make([]int, n)
 
 	// The timer is created before the driver hides its synchronisation from the race detector:
 	// time.NewTimer registers a runtime metric under a runtime lock on first use.
@@ -450,6 +473,34 @@ func Run(cfg Config, bodies []func(t *Task)) *Result {
 			live--
 		} else {
 			t.state = 0
+		}
+		if stallTask >= 0 {
+			if t.ID == stallTask && !stalled && (cfg.StallCountSite <= 0 || m.site == cfg.StallCountSite) {
+				ownSteps++
+				if ownSteps == stallAt && m.site != -1 && live > 1 {
+					stalled, stallSeen, stallSteps = true, 0, 0
+					for i := range stallBoundaries {
+						stallBoundaries[i] = 0
+					}
+					res.Stalls++
+				}
+			} else if stalled {
+				stallSteps++
+				if m.site == cfg.StallSite || m.site == -1 {
+					// the second boundary a task passes during the stall means that one whole
+					// request of it started and completed while the victim stood still
+					stallBoundaries[t.ID]++
+					if stallBoundaries[t.ID] >= 2 {
+						stallSeen++
+					}
+				}
+				if stallSeen >= stallNeed || stallSteps > 50000 {
+					if stallSeen >= stallNeed {
+						res.StallThaws++
+					}
+					stalled, forceNext = false, stallTask
+				}
+			}
 		}
 		if cfg.OnYield != nil {
 			cfg.OnYield(t.ID, m.site, now)
@@ -505,12 +556,18 @@ func Run(cfg Config, bodies []func(t *Task)) *Result {
 		cand = cand[:0]
 		// Candidate order: the task that ran last first (a zero draw keeps
 		// running it), then the others by id.
-		if last >= 0 && tasks[last].state == 0 {
+		if last >= 0 && tasks[last].state == 0 && !(stalled && last == stallTask) {
 			cand = append(cand, last)
 		}
 		for _, t := range tasks {
-			if t.state == 0 && t.ID != last {
+			if t.state == 0 && t.ID != last && !(stalled && t.ID == stallTask) {
 				cand = append(cand, t.ID)
+			}
+		}
+		if stalled && len(cand) == 0 {
+			stalled = false // nobody else can run: the stall is over
+			if tasks[stallTask].state == 0 {
+				cand = append(cand, stallTask)
 			}
 		}
 		onlyBlocked := false
@@ -565,6 +622,14 @@ func Run(cfg Config, bodies []func(t *Task)) *Result {
 			}
 		} else if onlyBlocked && len(cand) > 1 {
 			k = idle % len(cand)
+		}
+		if forceNext >= 0 && !onlyBlocked {
+			for j, id := range cand {
+				if id == forceNext {
+					k = j
+				}
+			}
+			forceNext = -1
 		}
 		t := tasks[cand[k]]
 		if t.state == 0 {
